@@ -1346,6 +1346,8 @@ def std(x, /, *, axis=None, correction=0, keepdims=False):
 def _extreme(cs, ge, gt):
     """Fork on the first index attaining the extreme value (DESIGN 2.2)."""
     cs = list(cs)
+    if not cs:
+        raise ValueError("zero-size array to reduction operation which has no identity")
     if len(cs) == 1:
         return cs[0]
     if builtins.all(not _is_term(c) or core.is_num(c) for c in cs) and OPS.name == "R":
